@@ -46,8 +46,13 @@ def coq_batch(b):
 def py_record(r):
     from kio.records.schema import Record, RecordHeader
 
+    ts = EPOCH + datetime.timedelta(microseconds=r["timestamp"])
+    if r.get("tz"):
+        import zoneinfo
+
+        ts = ts.astimezone(zoneinfo.ZoneInfo(r["tz"]))     # same instant; repeated-hour instants differ only in fold
     return Record(
-        attributes=r["attributes"], timestamp=EPOCH + datetime.timedelta(microseconds=r["timestamp"]),
+        attributes=r["attributes"], timestamp=ts,
         offset=r["offset"], key=r["key"], value=r["value"],
         headers=tuple(RecordHeader(key=k, value=v) for k, v in r["headers"]))
 
@@ -105,6 +110,13 @@ def gen_new_batch(r: random.Random, canonical_ms=True):
             "attributes": r.choice([0, 0, 1, -128, 127]), "timestamp": us, "offset": off,
             "key": gen_blob(r), "value": gen_blob(r, big=r.random() < 0.01),
             "headers": [(gen_blob(r), gen_blob(r)) for _ in range(r.choice([0, 0, 1, 3]))]})
+    if r.random() < 0.15:
+        # two instants one hour apart that share a wall-clock time in a DST zone (fold 0 / fold 1)
+        zone, first = r.choice([("Europe/Berlin", 1698539400), ("America/New_York", 1699162200), ("Europe/London", 1729989000)])
+        a, b = (first, first + 3600) if r.random() < 0.5 else (first + 3600, first)
+        for rec, t in zip(recs[:2] if len(recs) > 1 else recs, (a, b)):
+            rec["timestamp"] = t * 1000000
+            rec["tz"] = zone
     return {
         "producer_id": r.choice([-1, 0, 1, 2**63 - 1, r.randrange(0, 2**40)]),
         "producer_epoch": r.choice([-1, 0, 1, 2**15 - 1]),
